@@ -238,6 +238,18 @@ pub fn run(ctx: &Ctx) -> Outcome {
   }, |a, b| a.merge(b));
   total.merge(a3);
   let n_lists = total.evaluations - before;
+  // (iv) sizes: every alphabet character repeated n times, and lists of n patterns, n around every power of two up to 257
+  let sizes = [1usize, 2, 3, 4, 7, 8, 9, 15, 16, 17, 31, 32, 33, 63, 64, 65, 127, 128, 129, 255, 256, 257];
+  let before = total.evaluations;
+  for c in &alpha { for n in &sizes { let s: String = std::iter::repeat(*c).take(*n).collect(); total.run(&[&s]); let t = format!("{}a{}", s, c); total.run(&[&t]); } }
+  for n in &sizes {
+    let many: Vec<String> = (0..*n).map(|i| format!("{}{}", alpha[i % alpha.len()], i)).collect();
+    let refs: Vec<&str> = many.iter().map(|s| s.as_str()).collect();
+    total.run(&refs);
+    let same: Vec<&str> = std::iter::repeat("*Mouse*").take(*n).collect();
+    total.run(&same);
+  }
+  let n_sizes = total.evaluations - before;
   // the no-exclude unit must read back too
   total.run(&[]);
 
@@ -247,8 +259,9 @@ pub fn run(ctx: &Ctx) -> Outcome {
   o.cov("unicode_scalars_covered", scalars);
   o.cov("strings_over_syntax_alphabet", n_strings);
   o.cov("pattern_lists", n_lists);
+  o.cov("long_patterns_and_long_lists", n_sizes);
   o.cov("exhaustive", true);
-  o.cov("rule", format!("(i) every Unicode scalar value except NUL as a one-character pattern and embedded as a<c>b; (ii) every string of length 1..={} over the {}-character syntax alphabet; (iii) every list of 1..=3 patterns over {} short patterns; plus the empty list. Each input goes through the real build_service_text and the ExecStart line is read back by the reference reader; distinct_nontrivial = inputs (all distinct by construction) whose pattern text had to be changed by the escaper, i.e. the raw pattern does not appear verbatim in the line.", maxlen, alpha.len(), sub.len()));
+  o.cov("rule", format!("(i) every Unicode scalar value except NUL as a one-character pattern and embedded as a<c>b; (ii) every string of length 1..={} over the {}-character syntax alphabet; (iii) every list of 1..=3 patterns over {} short patterns; (iv) every alphabet character repeated n times and lists of n patterns for n around every power of two up to 257; plus the empty list. Each input goes through the real build_service_text and the ExecStart line is read back by the reference reader; distinct_nontrivial = inputs (all distinct by construction) whose pattern text had to be changed by the escaper, i.e. the raw pattern does not appear verbatim in the line.", maxlen, alpha.len(), sub.len()));
   o.cov("samples", json!([
     {"patterns": ["*Mouse*"], "exec_start": crate::udev_utils::verif_build_service_text(&["*Mouse*"]).split('\n').find(|l| l.starts_with("ExecStart=")).unwrap_or("")},
     {"patterns": ["it's 100% $HOME"], "exec_start": crate::udev_utils::verif_build_service_text(&["it's 100% $HOME"]).split('\n').find(|l| l.starts_with("ExecStart=")).unwrap_or("")},
